@@ -11,9 +11,7 @@ def main(tier, replay):
     P = c01.core_programs()
     # the repository's grammar: small shapes with groups (striping is about nesting)
     shapes = [(s, n) for s, n in progs.grammar_shapes(3 if quick else 4) if any(m[0] == 'G' for m in s)]
-    if quick:
-        rnd = random.Random(c.seed)
-        shapes = rnd.sample(shapes, min(40, len(shapes)))
+    # quick: every shape with <= 3 nodes that has a group (117); thorough: <= 4 nodes
     G = {}
     for i, (s, n) in enumerate(shapes):
         G['g%03d' % i] = progs.shape_program('g%03d' % i, s)
@@ -55,9 +53,12 @@ def main(tier, replay):
         if not infos[n]['ok']:
             gen_bad += 1
             continue
-        J('gram-%s-2n' % n, n, [2, 0, 0, 2, 1, 0, 1, 0])
+        # one free record (lists <= 2) followed by a fixed-structure one: all nesting combinations, at a bounded path count
+        J('gram-%s-1n1f' % n, n, [1, 1, 0, 2, 1, 0, 1, 0])
+        if not quick:
+            J('gram-%s-2n' % n, n, [2, 0, 0, 2, 1, 0, 1, 0])
     first = len(c.jobs)
-    out = run_program_jobs(c, mod, infos, jobs)
+    out = run_program_jobs_batched(c, mod, infos, jobs, batch=200)
     # grammar programs that do not compile are C05's business: not a C03 verdict
     bad_compile = sorted({k.split('/')[-1] for k in (out.get('load_errors') or {}) if k.startswith('scratch/g')})
     c.inconclusive = [r for r in c.inconclusive if not re.search(r'job gram-', r)]
@@ -68,7 +69,7 @@ def main(tier, replay):
     c.programs = len(P) + len(G) - gen_bad - len(bad_compile)
     c.extra['grammar_programs_not_generated_or_not_compiling'] = {'count': gen_bad + len(bad_compile), 'note': 'counted by C05, skipped here'}
     c.bounds = {'records': '2 structurally free records per program (person/document: 1 free + 1 fixed, both orders)', 'lists': '<= %d' % ML,
-                'programs': 'core catalogue (%d) + %d grammar shapes with groups (<= %d nodes, depth <= 3)' % (len(P), len(G), 3 if quick else 4),
+                'programs': 'core catalogue (%d) + all %d grammar shapes with groups (<= %d nodes, depth <= 3)' % (len(P), len(G), 3 if quick else 4),
                 'outside': 'lists longer than %d; nesting deeper than the catalogue; the page-level order of levels and values is checked by C02' % ML}
     c.assumptions = ['reference striper written from the Dremel paper (fig. 4) over a value tree built by catalogue-generated conversion code; expected schema comes from the catalogue description, not from parquetgen',
                      'string statistics accumulators stubbed (irrelevant to striping, decided by C12)']
